@@ -243,6 +243,128 @@ def dispatcher_lifecycle():
     return {"state": "confirmed", "paths": n, "extra": "exhaustive enumeration of start/stop sequences up to length 4 on real threads"}
 
 
+# ---- E3b: receiver/dispatcher hand-over under preemption (statement-level schedules of the real thread functions) -----------
+from engine import stmt  # noqa: E402
+
+
+class ReplayMismatch(Exception):
+    """the schedule found in the statement-level model does not reproduce on real threads: harness problem, not a violation"""
+
+
+def _gen_of(fn):
+    try:    # rewritten from the current source at import time (inspect.getsource is unreliable under CrossHair's tracing)
+        return stmt.steps(fn), None
+    except Exception as e:  # noqa
+        return None, e
+
+
+_G_DISPATCH, _E1 = _gen_of(ProtocolDispatcher._dispatcher_thread_function)
+_G_QUEUE, _E2 = _gen_of(ProtocolDispatcher.queue_block)
+_G_RECEIVE, _E3 = _gen_of(ProtocolDispatcher._receiver_thread_function)
+_G_TRIGGER, _E4 = _gen_of(ProtocolDispatcher.trigger_receiver)
+
+
+def _is_concrete(*xs):
+    return all(type(x) in (int, bool) for x in xs)
+
+
+def dispatcher_wakeup(first: int, p1: int, p2: int, p3: int, nblocks: int) -> bool:
+    """
+    pre: 0 <= first <= 1 and 0 <= p1 <= p2 <= p3 <= 60
+    pre: 1 <= nblocks <= 3
+    post: _
+    """
+    # logical thread 0: the dispatcher thread function; logical thread 1: the receive path queueing nblocks blocks one after the
+    # other. Whatever the schedule, when both have come to rest (producer done, dispatcher waiting for its trigger) every block
+    # was handed to the target exactly once and in order - nothing is left in the queue without a pending wake-up.
+    for e in (_E1, _E2):
+        if e is not None:
+            raise e
+    nblocks = 1 if nblocks == 1 else (2 if nblocks == 2 else 3)          # concrete from here on
+    delivered = []
+    d = ProtocolDispatcher(lambda: None, lambda src, blk: delivered.append(blk), RigSettings())
+
+    def producer():
+        for i in range(nblocks):
+            yield from _G_QUEUE(d, "src", i)
+
+    results, order = stmt.run([lambda: _G_DISPATCH(d), producer], first, [p1, p2, p3])
+    ok = results[1] == ("ret", None) and results[0] == ("deadlock",) and delivered == list(range(nblocks)) \
+        and d._dispatch_queue.qsize() == 0
+    if ok:
+        return fin(True)
+    if _is_concrete(first, p1, p2, p3, nblocks):
+        delivered2 = []
+        d2 = ProtocolDispatcher(lambda: None, lambda src, blk: delivered2.append(blk), RigSettings())
+
+        def produce2():
+            for i in range(nblocks):
+                d2.queue_block("src", i)
+        try:
+            stmt.replay_lines([ProtocolDispatcher._dispatcher_thread_function, ProtocolDispatcher.queue_block],
+                              [d2._dispatcher_thread_function, produce2], order, timeout=2.0)
+            time.sleep(0.2)
+            real_ok = delivered2 == list(range(nblocks)) and d2._dispatch_queue.qsize() == 0
+        finally:
+            d2._stop_dispatcher_thread = True
+            d2._dispatcher_thread_trigger.set()
+        if real_ok:
+            raise ReplayMismatch("model: delivered %r queue %d results %r; real threads delivered %r" % (
+                delivered, d._dispatch_queue.qsize(), results, delivered2))
+    return False
+
+
+def receiver_wakeup(first: int, p1: int, p2: int, p3: int, ntriggers: int) -> bool:
+    """
+    pre: 0 <= first <= 1 and 0 <= p1 <= p2 <= p3 <= 60
+    pre: 1 <= ntriggers <= 3
+    post: _
+    """
+    # logical thread 0: the receiver thread function; logical thread 1: ntriggers calls of trigger_receiver, each after new input
+    # became available (input counter). When both have come to rest the receiver target has run at least once after the last
+    # input arrived: no trigger is lost.
+    for e in (_E3, _E4):
+        if e is not None:
+            raise e
+    ntriggers = 1 if ntriggers == 1 else (2 if ntriggers == 2 else 3)   # concrete from here on
+    box = {"input": 0, "seen": 0}
+
+    def target():
+        box["seen"] = box["input"]
+    d = ProtocolDispatcher(target, lambda *a: None, RigSettings())
+
+    def producer():
+        for _ in range(ntriggers):
+            box["input"] += 1
+            yield from _G_TRIGGER(d)
+
+    results, order = stmt.run([lambda: _G_RECEIVE(d), producer], first, [p1, p2, p3])
+    if results[1] == ("ret", None) and results[0] == ("deadlock",) and box["seen"] == ntriggers:
+        return fin(True)
+    if _is_concrete(first, p1, p2, p3, ntriggers):
+        box2 = {"input": 0, "seen": 0}
+
+        def target2():
+            box2["seen"] = box2["input"]
+        d2 = ProtocolDispatcher(target2, lambda *a: None, RigSettings())
+
+        def produce2():
+            for _ in range(ntriggers):
+                box2["input"] += 1
+                d2.trigger_receiver()
+        try:
+            stmt.replay_lines([ProtocolDispatcher._receiver_thread_function, ProtocolDispatcher.trigger_receiver],
+                              [d2._receiver_thread_function, produce2], order, timeout=2.0)
+            time.sleep(0.2)
+            real_ok = box2["seen"] == ntriggers
+        finally:
+            d2._stop_receiver_thread = True
+            d2._receiver_thread_trigger.set()
+        if real_ok:
+            raise ReplayMismatch("model: seen %r results %r; real threads seen %r" % (box["seen"], results, box2["seen"]))
+    return False
+
+
 OBLIGATIONS = [
     dict(name="counter_sequential", fn="counter_sequential", timeout=120, functions=["Protocol.get_next_system_counter"],
          bounds="any start value incl. the wrap at 2^32, 1..3 consecutive ids"),
@@ -263,6 +385,24 @@ OBLIGATIONS = [
     dict(name="two_requests", fn="two_requests", timeout=300,
          functions=["Protocol.send_and_waitfor_response twice", "queue registration / removal"],
          bounds="any counter start; first reply delivered once or twice; the second requester gets only its own reply"),
+    dict(name="dispatcher_wakeup", fn="dispatcher_wakeup", timeout={"quick": 600, "thorough": 1800},
+         parts={"quick": ["nblocks == 2 and p3 == 60 and first == %d" % f for f in (0, 1)],
+                "thorough": ["nblocks == %d and first == %d and p1 %s" % (n, f, r) for n in (1, 2, 3) for f in (0, 1)
+                             for r in ("< 8", ">= 8 and p1 < 16", ">= 16")]},
+         functions=["ProtocolDispatcher._dispatcher_thread_function and queue_block (statement-level generators regenerated from "
+                    "their source by engine/stmt; real threading.Event and queue.Queue objects)"],
+         bounds="dispatcher thread against the receive path queueing 1..3 blocks (quick: 2); thread switches before any statement / "
+                "loop test of the two functions, <= 3 preemptions (quick: 2) at any position; at rest every block was delivered once, in "
+                "order, queue empty; counterexamples replayed on real threads (sys.monitoring LINE hand-over)",
+         outside="switches inside queue.Queue / Event methods (C level, atomic under the GIL); > 3 preemptions; > 3 blocks; "
+                 "several producers"),
+    dict(name="receiver_wakeup", fn="receiver_wakeup", timeout={"quick": 600, "thorough": 1800},
+         parts={"quick": ["ntriggers == 2 and p3 == 60 and first == %d" % f for f in (0, 1)],
+                "thorough": ["ntriggers == %d and first == %d" % (n, f) for n in (1, 2, 3) for f in (0, 1)]},
+         functions=["ProtocolDispatcher._receiver_thread_function and trigger_receiver (statement-level generators)"],
+         bounds="receiver thread against 1..3 triggers (quick: 2), <= 3 preemptions (quick: 2): at rest the receiver target ran after the "
+                "last input arrived (no lost trigger)",
+         outside="as dispatcher_wakeup"),
     dict(name="dispatcher_lifecycle", fn="dispatcher_lifecycle", kind="native", timeout=300,
          functions=["ProtocolDispatcher.start/stop/_receiver_thread_function/_dispatcher_thread_function"],
          bounds="all start/stop sequences of length <= 4 on real threads (enumeration)"),
